@@ -14,8 +14,10 @@ def txn(**kw):
 W = {
  'F01': ("#pragma version 6\ntxn OnCompletion\nint NoOp\n==\nassert\nint 1\nreturn\n",
          [{'size': 1, 'self': 0, 'txns': {'0': txn(TypeEnum=1, CloseRemainderTo=FRESH)}}]),
- 'F02': ("#pragma version 6\nint 1000\ntxn Fee\n>=\nbnz reject\ngtxn 0 Amount\npop\nint 2\nglobal GroupSize\n<\nassert\nint 1\nreturn\nreject:\nerr\n",
-         [{'size': 16, 'self': 0, 'txns': {'0': txn(Fee=272001)}}]),
+ 'F02': ("#pragma version 6\ngtxn 0 Amount\npop\nint 2\nglobal GroupSize\n<\nassert\nint 1\nreturn\n",
+         [{'size': 16, 'self': 0, 'txns': {'0': txn()}}]),
+ 'F02b': ("#pragma version 6\nint 1000\ntxn Fee\n>=\nbnz reject\nint 1\nreturn\nreject:\nerr\n",
+         [{'size': 1, 'self': 0, 'txns': {'0': txn(Fee=272001)}}]),
  'F03': ("#pragma version 6\ntxn Fee\nint 1000\n>\nbz l\nl:\nint 1\nreturn\n",
          [{'size': 1, 'self': 0, 'txns': {'0': txn(Fee=272001)}}]),
  'F04': ("#pragma version 6\ntxn NumAppArgs\nbz skip\ntxn Fee\nint 1000\n<=\nassert\ncallsub f\nskip:\nint 1\nreturn\nf:\nretsub\n",
